@@ -365,9 +365,9 @@ def execute(world, op, rng=None, tok=None):
             else:
                 g("wire", op["w"]).connect_pin(h, position=op["pos"])
         elif t == "disconnect":
-            g("wire", op["w"]).disconnect_pin(pinref_obj(W, rng, op["r"]))
+            g("wire", op["w"]).disconnect_pin(pinref_obj(W, rng, op["r"], bool(op.get("proxy"))))
         elif t == "disconnectFrom":
-            xs = [pinref_obj(W, rng, r) for r in op["rs"]]
+            xs = [pinref_obj(W, rng, r, bool(op.get("proxy"))) for r in op["rs"]]
             g("wire", op["w"]).disconnect_pins_from(sp(set(xs) if op.get("asset") else xs))
         elif t == "setWirePins":
             g("wire", op["w"]).pins = sp([pinref_obj(W, None if op.get("stored_only") else rng, r, bool(op.get("proxy"))) for r in op["rs"]])
